@@ -33,6 +33,10 @@ def cases(tier, seed):
     for i in range(0, len(vecs), 16):
         yield {"kind": "trees", "grid": [3, 3], "ys": [list(v) for v in vecs[i:i + 16]],
                "models": ["reg", "clf"] if tier == "quick" else ["reg", "clf", "extra"]}
+        if (i // 16) % 4 == seed % 4 or tier == "thorough":
+            # same targets on the grid {-3,-1,1}^2: split thresholds are -2.0 and 0.0 (-2 is TREE_UNDEFINED, 0 a zero)
+            yield {"kind": "trees", "grid": [3, 3], "scale": 2.0, "shift": -3.0, "ys": [list(v) for v in vecs[i:i + 16]],
+                   "models": ["reg", "clf"]}
     if tier == "thorough":
         vecs = [v for v in itertools.product((0, 1, 2), repeat=9) if 2 in v and v[0] == 0]
         for i in range(0, len(vecs), 64):
@@ -115,6 +119,7 @@ def _trees(case):
     grid = case["grid"]
     d = len(grid)
     X = numpy.array(list(itertools.product(*[range(g) for g in grid])), dtype=numpy.float64)
+    X = X * case.get("scale", 1.0) + case.get("shift", 0.0)
     viol = []
     cnt = 0
     ntriv = 0
@@ -142,7 +147,7 @@ def _trees(case):
                 seen.add(key)
                 outcomes.add(key[:2])
                 desc = "y=%r model=%s depth=%r" % (ys, mk, depth)
-                Q = _queries(t, d)
+                Q = _queries(t, d, lo=float(X.min()) - 1.0, hi=float(X.max()) + 1.0)
                 ref = model.apply(Q)
                 cnt += len(Q)
                 if t.node_count > 1:
